@@ -3,7 +3,11 @@
 use std::cell::RefCell;
 use std::panic::{catch_unwind, AssertUnwindSafe};
 use std::sync::atomic::{AtomicU64, Ordering};
-use std::sync::Once;
+use std::sync::{Mutex, Once};
+
+/// panics that escaped a check's own guards (e.g. in a worker thread of `par_for` or in sample
+/// rendering); the orchestrator turns them into violations (library code) or inconclusive (harness)
+pub static ESCAPED: Mutex<Vec<PanicInfo>> = Mutex::new(Vec::new());
 
 /// Run `f(index)` for every index in 0..n on `threads` threads; work is handed out in chunks.
 pub fn par_for(threads: usize, n: u64, chunk: u64, f: impl Fn(u64) + Sync) {
@@ -18,7 +22,12 @@ pub fn par_for(threads: usize, n: u64, chunk: u64, f: impl Fn(u64) + Sync) {
                 }
                 let end = (start + chunk).min(n);
                 for i in start..end {
-                    f(i);
+                    if let Err(p) = guard(|| f(i)) {
+                        let mut e = ESCAPED.lock().unwrap_or_else(|e| e.into_inner());
+                        if e.len() < 64 {
+                            e.push(p);
+                        }
+                    }
                 }
             });
         }
